@@ -219,7 +219,11 @@ def encode_config(repo, prefix):
                 raise Unsupported("fragment generator called on a value that is not a whole ghost buffer")
         else:
             if not lb.segs:
-                raise Unsupported("fragment generator called on empty concrete bytes")
+                # the generator's contract on an empty input: no fragment, except for an unlimited length (0), where the
+                # whole (empty) input is yielded once
+                st = FragStream(I, z3.Empty(BYTES), z3.IntVal(0), I._num(fl, "int"), "empty")
+                g["streams"]["empty-input"] = st
+                return st
             raise Unsupported("fragment generator called on a composite value")
         st = FragStream(I, s.base, z3.Length(s.base), I._num(fl, "int"), which)
         g["streams"][which] = st
@@ -354,7 +358,7 @@ class EncodeTask(Task):
             I.ob(f"{P}/all-data-set-fragments-sent", ds is not None and self._all_sent(I, ds, mx))
         if self.mode in ("mem-empty", "none"):
             I.ob(f"{P}/no-data-fragments-when-there-is-no-data", "ds" not in g["streams"] and
-                 all(getattr(p, "_part", None) == "cmd" for p in seen))
+                 all(getattr(p, "_part", None) == "cmd" for p in seen), detail=repr([getattr(p, "_part", None) for p in seen]))
         if self.mode == "file":
             I.ob(f"{P}/file-read-from-its-offset-to-the-end", g["fp"] == g["flen"])
             I.ob(f"{P}/file-closed", g.get("closed") is True)
